@@ -130,36 +130,39 @@ def case_strategy(sieve=True, max_threads=8, max_pool=9, max_instr=12):
     })
 
 
-def _val(v, n_regs):
+def _val(v):
     if "i" in v:
         return ["integer", v["i"]]
     if "q" in v:
         return ["rational", v["q"][0], v["q"][1]]
     if "s" in v:
         return ["symbol", v["s"]]
-    return ["$", v["reg"] % n_regs]
+    raise ValueError(v)
 
 
-def render_instr(ins, n_regs, deg, sieve):
-    """-> (statement, degree estimate of its result); deg = degree estimates of the visible registers"""
+def render_instr(ins, bregs, deg, sieve):
+    """-> (statement, degree estimate of its result); bregs = the visible registers that hold expressions
+    (pool elements and the thread's own expression-valued results), deg = degree estimates by register"""
+    def pick(i):
+        return bregs[i % len(bregs)]
     op = ins["op"]
     if op == "yield":
         return ["yield"], 0
     if op == "spin":
         return ["spin", ins["n"]], 0
-    ia = ins["a"] % n_regs
+    ia = pick(ins["a"])
     a = ["$", ia]
     if op in ("hash", "str"):
         return [op, a], 0
     if op == "expand":
         return [op, a], deg[ia]
     if op in ("cmp", "eq"):
-        return [op, a, ["$", ins["b"] % n_regs]], 0
+        return [op, a, ["$", pick(ins["b"])]], 0
     if op in ("add", "sub"):
-        ib = ins["b"] % n_regs
+        ib = pick(ins["b"])
         return [op, a, ["$", ib]], max(deg[ia], deg[ib])
     if op in ("mul", "div"):
-        ib = ins["b"] % n_regs
+        ib = pick(ins["b"])
         if deg[ia] + deg[ib] > DEG_MAX:
             return ["add", a, ["$", ib]], max(deg[ia], deg[ib])
         return [op, a, ["$", ib]], deg[ia] + deg[ib]
@@ -168,13 +171,13 @@ def render_instr(ins, n_regs, deg, sieve):
     if op == "subs":
         v = ins["v"]
         if "reg" in v:
-            iv = v["reg"] % n_regs
+            iv = pick(v["reg"])
             if sieve or deg[ia] * max(deg[iv], 1) > DEG_MAX:
                 # with PrimePi / Primorial nodes in the pool a substituted value becomes a sieve limit: small ints only
                 v = {"i": v["reg"] % 50 + 2}
-                return ["subs", a, ["list", ["list", ["symbol", ins["s"]], _val(v, n_regs)]]], deg[ia]
+                return ["subs", a, ["list", ["list", ["symbol", ins["s"]], _val(v)]]], deg[ia]
             return ["subs", a, ["list", ["list", ["symbol", ins["s"]], ["$", iv]]]], deg[ia] * max(deg[iv], 1)
-        return ["subs", a, ["list", ["list", ["symbol", ins["s"]], _val(v, n_regs)]]], deg[ia]
+        return ["subs", a, ["list", ["list", ["symbol", ins["s"]], _val(v)]]], deg[ia]
     if op == "pow":
         e = ins["e"]
         if deg[ia] * abs(e) > DEG_MAX:
@@ -199,16 +202,20 @@ def compile_case(case):
         stm = []
         tt = []
         deg = list(pdeg)
+        bregs = list(range(P))
         for j, ins in enumerate(lst):
-            n_regs = P + j
-            e, d = render_instr(ins, n_regs, deg, sieve)
+            e, d = render_instr(ins, bregs, deg, sieve)
             stm.append(sx(e))
             deg.append(d)
-            for key in ("a", "b"):
-                if key in ins and ins["op"] not in ("yield", "spin"):
-                    r = ins[key] % n_regs
-                    if r < P:
-                        tt.append((r, ins["op"]))
+            for x in e[1:]:
+                if isinstance(x, list) and len(x) == 2 and x[0] == "$" and x[1] < P:
+                    tt.append((x[1], e[0]))
+            if e[0] == "subs":
+                x = e[2][1][2]
+                if isinstance(x, list) and len(x) == 2 and x[0] == "$" and x[1] < P:
+                    tt.append((x[1], "subs"))
+            if e[0] not in ("hash", "str", "cmp", "eq", "yield", "spin"):
+                bregs.append(P + j)
         parts.append("(thread " + " ".join(stm) + ")")
         touched.append(tt)
     return " ".join(parts), P, touched
